@@ -396,6 +396,14 @@ def r_forest_validators(model, rep):
     # the uid/parent-arch/id validators themselves: rows of the shared obligation table
     from .validation import r_val_strength_rows
     r_val_strength_rows(model, rep, [r for r in VAL_OBLIGATIONS if r[0] == "composeinfo.Variant"], rule_id="R-FOREST-VALIDATORS")
+    # ComposeInfo[...] is the forest's lookup
+    ci = model.own_method("composeinfo.ComposeInfo", "__getitem__")
+    ccx = facts.fctx(model, ci)
+    crets = [ev for ev in ccx.events if ev.kind == "return"]
+    ok = len(crets) == 1 and not crets[0].guards and not ccx.ex.falls_through \
+        and crets[0].value == ("sub", ("attr", ("param", ccx.selfname), "variants"), ("param", ccx.params[1]))
+    rep.ob("R-FOREST-VALIDATORS", "ComposeInfo.__getitem__", ok, site=ccx.site(ci.node),
+           msg="" if ok else "ComposeInfo.__getitem__ must hand out self.variants[name]")
     # __getitem__: id lookup, uid scan, dashed-path descent
     gi = model.own_method("composeinfo.VariantBase", "__getitem__")
     gcx = facts.fctx(model, gi)
